@@ -1,15 +1,18 @@
 //! Verification harness for biodivine-hctl-model-checker (bounded-exhaustive model checking).
 //! usage: harness <ID> <quick|thorough>   |   harness <ID> --replay <file>
 
+mod bigmodels;
 mod bridge;
 mod cachemc;
 mod formulas;
+mod jobs;
 mod nets;
 mod oracle;
 mod refparser;
 mod props;
 mod report;
 mod sem;
+mod style;
 mod sweep;
 mod trees;
 mod triggers;
@@ -33,6 +36,12 @@ pub fn generic_replay(case: &Value) -> Option<String> {
         Some("reject") => props::c14::replay(case),
         Some("cache") => props::c04::replay(case),
         Some("canon") => props::c09::replay(case),
+        Some("rewrite") => props::c08::replay(case),
+        Some("subst") => props::c10::replay(case),
+        Some("law") => props::c11::replay(case),
+        Some("sanitize") => props::c15::replay(case),
+        Some("unsafe_ex") => props::c18::replay(case),
+        Some("colour") | Some("c20big") => props::c20::replay(case),
         other => Some(format!("unknown replay kind {other:?}")),
     }
 }
@@ -60,6 +69,37 @@ fn main() {
             }
         }
     }
+    if id == "JOB" {
+        let job: Value = serde_json::from_str(&args[2]).expect("bad job");
+        println!("{}", jobs::child_main(&job));
+        return;
+    }
+    if id == "MODELS" {
+        use std::io::Write;
+        let big = bigmodels::load(&args[2], 3).expect("load");
+        println!("{}: vars={} colours={}", big.name, big.graph.num_vars(), big.colours());
+        let names = formulas::Names::user(&big.var_names());
+        let v0 = &names.props[0];
+        let v1 = &names.props[names.props.len() / 2];
+        for t in [
+            "!{x}: AG EF {x}".to_string(),
+            "!{x}: AX {x}".to_string(),
+            format!("(!{{x}}: AX {{x}}) & EF ({v0} & ~{v1})"),
+            format!("3{{x}}: @{{x}}: ((!{{y}}: AX {{y}}) & {v0}) & EF (AG {v1})"),
+            "AF (!{x}: (AX (~{x} & AF {x})))".to_string(),
+            "!{x}: 3{y}: ((@{x}: ~{y} & AX {x}) & (@{y}: AX {y}))".to_string(),
+            format!("EF (!{{x}}: AX {{x}}) | AG (EF {v0} => EX {v1})"),
+            "3{x}: 3{y}: (@{x}: ~{y} & (!{z}: AX {z})) & (@{y}: (!{z}: AX {z}))".to_string(),
+            format!("AG ((!{{x}}: AX (~{{x}} & AF {{x}})) | ~{v0}) & ({v1} EU (!{{y}}: AG EF {{y}}))"),
+        ] {
+            print!("  {t} ... ");
+            std::io::stdout().flush().unwrap();
+            let t0 = std::time::Instant::now();
+            let r = biodivine_hctl_model_checker::model_checking::model_check_formula_dirty(&t, &big.graph).unwrap();
+            println!("{:.2}s card={}", t0.elapsed().as_secs_f64(), r.approx_cardinality());
+        }
+        return;
+    }
     if id == "NETS" {
         for (name, spec) in nets::core_family() {
             match bridge::Bound::new(name, &spec, 2) {
@@ -83,8 +123,14 @@ fn main() {
         "C05" => props::c05::run(tier),
         "C06" => props::c06::run(tier),
         "C07" => props::c07::run(tier),
+        "C08" => props::c08::run(tier),
         "C09" => props::c09::run(tier),
+        "C10" => props::c10::run(tier),
+        "C11" => props::c11::run(tier),
         "C12" => props::c12::run(tier),
+        "C15" => props::c15::run(tier),
+        "C18" => props::c18::run(tier),
+        "C20" => props::c20::run(tier),
         "C13" => props::c13::run(tier),
         "C14" => props::c14::run(tier),
         _ => {
